@@ -30,9 +30,9 @@ def dist_hook(extra=None):
         nm = (name or "").split(".")[-1]
         if nm == "norm" and call.args:
             v = ev.eval(call.args[0])
-            if isinstance(v, int):
+            if isinstance(v, (int, float)) and not isinstance(v, bool):
                 return abs(v)
-            raise NotEvaluable("norm of a non-integer in the 1-D model")
+            raise NotEvaluable("norm of a non-number in the 1-D model")
         if name in ("np.array", "np.asarray", "numpy.array", "numpy.asarray") and call.args:
             return ev.eval(call.args[0])
         if nm == "is_point_on_plane" and len(call.args) == 3:
@@ -77,11 +77,15 @@ def scan(repo: Repo) -> RuleRun:
         got = {v.get("index") for v in res} if isinstance(res, (set, frozenset, list)) else res
         r.check(got == want, fbp, f"{label}: {sorted(got) if isinstance(got, set) else got}", f"_find_by_position(position={pos}, radius={rad}) on vertices at {positions} returns vertices {sorted(got) if isinstance(got, set) else got}; expected {sorted(want)} ({label})", fbp.node, key=f"by_position:{pos}:{rad}")
 
-    # default radius = the merge tolerance
-    dflt = [n for n in ast.walk(fbp.node) if isinstance(n, ast.If) and "radius is None" in ast.unparse(n.test)]
-    r.require(len(dflt) == 1 and len(dflt[0].body) == 1 and isinstance(dflt[0].body[0], ast.Assign), "_find_by_position: 'if radius is None: radius = ...' not found")
-    dv = ast.unparse(dflt[0].body[0].value)
-    r.check(dv.split(".")[-1] == "TOL", fbp, "default radius = TOL", f"the default search radius is {dv}, not the merge tolerance TOL: an exact-position query returns neighbouring vertices as well", dflt[0], key="default-radius")
+    # default radius = the merge tolerance: a vertex half a unit away is not 'at' the position
+    mesh, vs = _mesh([0, 3, 5, 5.5, 9, 4.5])
+    this = Obj("finder", cls=repo.cls("modify.find.finder.FinderBase"))
+    this.set("mesh", mesh)
+    evd = Evaluator(repo=repo, module=fbp.module, call_hook=dist_hook())
+    evd.float_arith = True
+    res = _run(evd, fbp, [this, 5, None])
+    got = {v.get("index") for v in res} if isinstance(res, (set, frozenset, list)) else res
+    r.check(got == {2}, fbp, "default radius: only the coincident vertex", f"_find_by_position(5) without a radius on vertices at [0, 3, 5, 5.5, 9, 4.5] returns {sorted(got) if isinstance(got, set) else got}; the default radius must be the merge tolerance (only vertex 2)", fbp.node, key="default-radius")
     fis = repo.func("modify.find.geometric.GeometricFinder.find_in_sphere")
     mesh, vs = _mesh(positions)
     this = Obj("finder", cls=repo.cls("modify.find.geometric.GeometricFinder"))
